@@ -249,8 +249,7 @@ def deleteElems (pj : PJ) (pred : Nat → Bytes → Bool) (onlyKeys : List Bytes
           let tp ← fillNops pj.tape startO e.toNat
           .ok { pj with tape := tp }
         else .ok pj)
-      let n := n + 1
-      if n == onlyKeys.length then .ok (pj, acc) else deleteElems pj pred onlyKeys tmp n acc fuel
+      deleteElems pj pred onlyKeys tmp (n + 1) acc fuel
 
 /-- `o.FindPath(dst, path...)`. Result: (type, iter). -/
 def findPath (pj : PJ) (key : Bytes) (path : List Bytes) (tmp : Iter) : (fuel : Nat) → Res (UInt8 × Iter)
